@@ -2,6 +2,7 @@ package checks
 
 import (
 	"fmt"
+	"sort"
 	"strings"
 	"time"
 
@@ -163,5 +164,76 @@ func tagsOf(vs ...*model.V) []string {
 			}
 		})
 	}
+	if !seen["bytes-sparse"] && bytesTransientSparse(vs) {
+		add("bytes-sparse")
+	}
 	return tags
+}
+
+// byteIdx returns the indices of the byte tuples directly in set v.
+func byteIdx(v *model.V) []int {
+	var idx []int
+	if v == nil || v.K != model.KSet {
+		return nil
+	}
+	for _, e := range v.Elems {
+		if a, ok := e.SugarAttr(); ok && a == "@byte" {
+			at, _ := e.Get("@")
+			if i, ok := at.IsInt(); ok {
+				idx = append(idx, i)
+			}
+		}
+	}
+	sort.Ints(idx)
+	return idx
+}
+
+func gapped(m map[int]bool) bool {
+	if len(m) == 0 {
+		return false
+	}
+	lo, hi := 1<<30, -(1 << 30)
+	for i := range m {
+		if i < lo {
+			lo = i
+		}
+		if i > hi {
+			hi = i
+		}
+	}
+	return hi-lo+1 > len(m)
+}
+
+// bytesTransientSparse reports whether combining two of the given sets one
+// member at a time (as |, &~ and ~~ do) passes through a byte array with a
+// gap, which the implementation cannot represent (known finding bytes-sparse)
+// even though operands and result have none.
+func bytesTransientSparse(vs []*model.V) bool {
+	var sets [][]int
+	for _, v := range vs {
+		if v == nil {
+			continue
+		}
+		v.Walk(func(x *model.V) {
+			if idx := byteIdx(x); len(idx) > 0 && len(sets) < 24 {
+				sets = append(sets, idx)
+			}
+		})
+	}
+	for _, a := range sets {
+		for _, b := range sets {
+			add, del := map[int]bool{}, map[int]bool{}
+			for _, i := range a {
+				add[i], del[i] = true, true
+			}
+			for _, i := range b {
+				add[i] = true
+				delete(del, i)
+				if gapped(add) || gapped(del) {
+					return true
+				}
+			}
+		}
+	}
+	return false
 }
